@@ -318,6 +318,8 @@ impl Sixel {
     ///
     /// This function will return an error if .
     pub fn parse_from(pos: Position, horizontal_scale: i32, vertical_scale: i32, default_bg_color: [u8; 4], data: &str) -> EngineResult<Self> {
+        #[cfg(icy_engine_verif)]
+        crate::verif::sixel_gate();
         let mut parser = SixelParser {
             pos,
             vertical_scale,
